@@ -268,7 +268,7 @@ def stringLen (value : String) : BM String := do
 def appCallString (calls : List (String × List String)) : String :=
   " | ".intercalate (calls.map fun (name, args) =>
     let args' := args.map fun a => "\"" ++ a ++ "\""
-    name ++ (if args'.isEmpty then "" else " ") ++ " ".intercalate args')
+    "\"" ++ stringToString name ++ "\"" ++ (if args'.isEmpty then "" else " ") ++ " ".intercalate args')
 
 def appCallWith (cs : String) (used : Bool) : BM (List String) := do
   if used then
